@@ -69,12 +69,24 @@ def cmd_setup(args):
 
 
 def cmd_replay(args):
+    """Re-run a recorded counterexample against the real code of /repo's current working tree."""
     d = json.load(open(args.path))
-    print(json.dumps(d, indent=1))
     rp = d.get("replay") or {}
-    if rp.get("cmd"):
-        import subprocess
-        return subprocess.call(rp["cmd"], shell=True)
+    print("property=%s obligation=%s engine=%s" % (d.get("property"), d.get("obligation"), d.get("engine")))
+    if rp.get("replay_test") or rp.get("harness"):
+        import kani
+        table = {h["name"]: h for h in kani.load_table()}
+        h = table.get(rp.get("harness"), {})
+        if h.get("replay_test") and rp.get("input_hex") is not None:
+            with workspace.Scratch("replay") as sc:
+                sc.copy_repo()
+                kani.overlay(sc)
+                r = kani.native_replay(sc, h["replay_test"], rp["input_hex"], {})
+            for l in r["lines"]:
+                print(l)
+            print("reproduced=%s" % r["reproduced"])
+            return 1 if r["reproduced"] else 0
+    print(d.get("verifier_output", ""))
     print("no executable replay attached: the verifier gave no counterexample for this obligation (no-failing-input-found)")
     return 0
 
